@@ -42,7 +42,7 @@ func sleb(v int32) []byte {
 	}
 }
 
-func vecBytes(b []byte) []byte       { return append(uleb(uint32(len(b))), b...) }
+func vecBytes(b []byte) []byte            { return append(uleb(uint32(len(b))), b...) }
 func section(id byte, body []byte) []byte { return append([]byte{id}, vecBytes(body)...) }
 
 type hostFn struct {
